@@ -31,6 +31,9 @@ def plan(prop, tier, seed):
         k = 4 if tier == "quick" else 16
         shards += [{"kind": "tcp", "shard": i, "seed": seed, "runs": 1 if tier == "quick" else 12,
                     "workers": 6 if tier == "quick" else 16, "jobs_each": 40 if tier == "quick" else 300} for i in range(k)]
+    if prop == "C18":
+        # the real Main.run loop stopped in every way it can end, several stop/start cycles on one data directory
+        shards += [{"kind": "lifecycle", "shard": i, "seed": seed, "runs": 6 if tier == "quick" else 150} for i in range(4)]
     return shards
 
 
@@ -109,6 +112,18 @@ def run_shard(prop, desc, R):
             for key, what in findings:
                 R.violation(key, what, {"tcp_seed": s, "workers": desc["workers"], "jobs_each": desc["jobs_each"]})
         return
+    if desc["kind"] == "lifecycle":
+        from ..mon import qlifecycle
+        rnd = random.Random("%s:life:%s:%s" % (prop, desc["seed"], desc["shard"]))
+        for _ in range(desc["runs"]):
+            s = rnd.getrandbits(32)
+            findings, obs = qlifecycle.lifecycle(s, cycles=4)
+            for k, v in obs.items():
+                R.count(k, v)
+            R.case(h64("lifecycle", s), obs.get("lifecycle_cycles", 0) >= 2, sample={"lifecycle_seed": s, "obs": obs})
+            for key, what in findings:
+                R.violation(key, what, {"lifecycle_seed": s})
+        return
     if desc["kind"] == "random":
         rnd = random.Random("%s:%s:%s" % (prop, desc["seed"], desc["shard"]))
         for _ in range(desc["count"]):
@@ -163,6 +178,11 @@ def run_shard(prop, desc, R):
 
 
 def replay(prop, case):
+    if "lifecycle_seed" in case:
+        from ..mon import qlifecycle
+        findings, obs = qlifecycle.lifecycle(case["lifecycle_seed"], cycles=4)
+        print(obs)
+        return [(k, w, None) for k, w in findings]
     if "tcp_seed" in case:
         from ..mon import qtcp
         findings, obs = qtcp.stress(case["tcp_seed"], nproducers=3, nworkers=case["workers"], jobs_each=case["jobs_each"])
